@@ -28,6 +28,20 @@ var (
 // DoRSAencrypt encrypts exactly 1 message block of size 255 with the public key.
 // Specific algorithm for mtproto, because the documentation does not indicate is
 // this encryption working by OAEP spec or any else
+// BigIntFixedBytes returns the big-endian form of v in exactly size bytes. big.Int.Bytes() drops leading
+// zero bytes, but protocol fields (nonces, hashes, the auth key, the RSA block) have a fixed width, so shorter
+// values are left-padded with zeros. A value wider than size keeps its leading size bytes.
+func BigIntFixedBytes(v *big.Int, size int) []byte {
+	b := v.Bytes()
+	if len(b) >= size {
+		return b[:size]
+	}
+
+	res := make([]byte, size)
+	copy(res[size-len(b):], b)
+	return res
+}
+
 func DoRSAencrypt(block []byte, key *rsa.PublicKey) []byte {
 	dry.PanicIf(len(block) != math.MaxUint8, "block size isn't equal 255 bytes")
 	z := big.NewInt(0).SetBytes(block)
@@ -35,10 +49,7 @@ func DoRSAencrypt(block []byte, key *rsa.PublicKey) []byte {
 
 	c := big.NewInt(0).Exp(z, exponent, key.N)
 
-	res := make([]byte, 256)
-	copy(res, c.Bytes())
-
-	return res
+	return BigIntFixedBytes(c, 256)
 }
 
 // SplitPQ splits a number into two primes, while p1 < p2
